@@ -1221,6 +1221,10 @@ def run(ctx: vlib.Ctx):
     from harness import c15fmt
     c15fmt.run_format_family(ctx, ctx.budget(60, 300))
 
+    # ---------------- oracle 5: one type, every place it can be used in (nullable fields, NamedTuple / TypedDict members, ...)
+    from harness import c15ctx
+    c15ctx.run_context_oracle(ctx, ctx.budget(6, 30), 4)
+
     # ---------------- a broken tie aims the search at the disagreement
     if corr_bad and not ctx.failures:
         for i in corr_bad[:20]:
@@ -1244,6 +1248,11 @@ def replay(rep: dict) -> int:
     if rep.get("kind") == "no-failing-input-found":
         print("nothing to replay: the run found no failing input (see not_shown)")
         return 0
+    if entry == "context":
+        from harness import c15ctx
+        rc = c15ctx.replay_context(rep)
+        print("REPRODUCED" if rc else "not reproduced")
+        return rc
     if entry == "format-family":
         from harness import c15fmt
         rc = c15fmt.replay_format(rep)
